@@ -7,7 +7,11 @@
 (*   keeper/farmer.go (Stake, Unstake, Harvest, Refund),                   *)
 (*   keeper/queue.go (Expired, active-pool queue), abci.go (EndBlocker),   *)
 (*   keeper/fees.go (DeductPoolCreationFee), types/farm.go (CaclRewards,   *)
-(*   ExpiredHeight).                                                       *)
+(*   ExpiredHeight), msg_server.go (CreatePoolWithCommunityPool),          *)
+(*   keeper/proposal.go + proposal_hook.go (escrow, HandleCreateFarm-      *)
+(*   Proposal, refund hooks) together with the part of the SDK's x/gov     *)
+(*   (v0.50.10: SubmitProposal, AddDeposit, AddVote, CancelProposal,       *)
+(*   EndBlocker) that drives them.                                         *)
 (*                                                                         *)
 (* Style: every handler is an operator  st, args -> [ok, panic, st, resp]  *)
 (* (the code is sequential and each message is atomic), wrapped by one     *)
@@ -28,8 +32,9 @@ CONSTANTS
   Users,        \* user accounts (farmers and creators), strings
   RDenoms,      \* reward denominations, strings
   LP,           \* the staking (liquidity) token denom
-  FeeDenom,     \* denom of the pool-creation fee
-  RecordHist    \* BOOLEAN: keep the event history (generator configs)
+  FeeDenom,     \* denom of the pool-creation fee (and of governance deposits)
+  RecordHist,   \* BOOLEAN: keep the event history (generator configs)
+  Proposers     \* accounts that submit / fund / cancel governance proposals
 
 VARIABLES st, ev, gh, hist
 vars == <<st, ev, gh, hist>>
@@ -40,6 +45,15 @@ FEEP == "feepool"         \* fee collector + distribution account
 Accts == Users \cup {FARM, COLL, FEEP}
 Denoms == RDenoms \cup {LP, FeeDenom}
 
+(* The governance side of the balance sheet is kept in a sheet of its own
+   (st.gbal): the farm escrow account of pending proposals, the gov module
+   account holding the deposits, and the proposers.  st.bal stays the farm
+   universe the clauses C05/C06 speak about. *)
+ESC  == "escrow"          \* module account escrow_collector
+GOVA == "gov"             \* gov module account (proposal deposits)
+VAL  == "val"             \* the delegator of the only validator: all voting power
+GAccts == Proposers \cup {ESC, GOVA}
+
 (* the universe as seen in a state (traces carry their own) *)
 UsersOf(t) == DOMAIN t.bal \ {FARM, COLL, FEEP}
 RDenomsOf(t) == DOMAIN t.bal[FARM] \ {LP, FeeDenom}
@@ -48,7 +62,8 @@ PoolId(n) == "farm-" \o ToString(n)
 
 NoEv == [name |-> "Init", who |-> "", pool |-> "", amt |-> 0, lpt |-> "",
          total |-> EmptyF, rpb |-> EmptyF, start |-> 0, editable |-> FALSE,
-         ok |-> TRUE, panic |-> FALSE, halt |-> FALSE, reward |-> EmptyF]
+         ok |-> TRUE, panic |-> FALSE, halt |-> FALSE, reward |-> EmptyF,
+         bond |-> EmptyF]
 
 -----------------------------------------------------------------------------
 (* Results *)
@@ -182,8 +197,13 @@ DoRefund(s, p) ==
     IN
     IF DOMAIN refund = {} THEN [ok |-> FALSE, st |-> s1]       \* ErrInvalidRefund
     ELSE IF ~CanPay(s1.bal, FARM, refund) THEN [ok |-> FALSE, st |-> s1]
+    \* a pool created by a passed proposal belongs to the distribution module
+    \* account: refundToFeePool credits the community pool as well
     ELSE [ok |-> TRUE, refund |-> refund,
-          st |-> [s1 EXCEPT !.bal = Move(s1.bal, FARM, pool.creator, refund)]]
+          st |-> [s1 EXCEPT !.bal = Move(s1.bal, FARM, pool.creator, refund),
+                            !.cp = IF pool.creator = FEEP
+                                   THEN [d \in DOMAIN s1.cp |-> s1.cp[d] + Amt(refund, d)]
+                                   ELSE s1.cp]]
 
 DoDestroyPool(s, who, p) ==
   IF p \notin DOMAIN s.pools THEN Fail(s)
@@ -317,6 +337,223 @@ DoHarvest(s, who, p) ==
                    !.fi[p][who].debt = c.debt],
                 c.rewards)
 
+-----------------------------------------------------------------------------
+(***************************************************************************)
+(* Pools funded from the community pool.                                   *)
+(*                                                                         *)
+(* MsgCreatePoolWithCommunityPool escrows the proposer's own contribution  *)
+(* (FundSelfBond) and the requested part of the community pool             *)
+(* (FundApplied) in the escrow_collector account, submits a governance     *)
+(* proposal carrying a CommunityPoolCreateFarmProposal and adds the        *)
+(* initial deposit.  The gov end-blocker decides the proposal; the farm    *)
+(* module's gov hooks return the escrow unless the proposal passed, in     *)
+(* which case the proposal handler has created the pool from the escrow.   *)
+(*                                                                         *)
+(* The path needs three things of the host application: the module         *)
+(* account escrow_collector, the legacy proposal route of the farm module  *)
+(* and its gov hooks.  The repository's own application (e2e/app_config.go *)
+(* + simapp) provides none of them; st.wired says whether the application  *)
+(* under test does (the harness can complete the wiring the way a host     *)
+(* application would).  Without the module account the bank keeper panics  *)
+(* on the first transfer into the escrow.                                  *)
+(*                                                                         *)
+(* Governance is modelled as far as it moves the farm: one voter (VAL, the *)
+(* delegator of the only validator) holds all voting power; periods are    *)
+(* counted in blocks (the harness runs equal block intervals and sets the  *)
+(* periods to multiples of it); deposits are in FeeDenom.                  *)
+(*   st.gov   = [minDep, thr, dp, vp, cnum, cden, burnPre, burnQ, burnV]   *)
+(*   st.props = id -> [status, proposer, dep, due, vote, lpt, rpb,         *)
+(*                     applied, bond]   status: deposit | voting | passed  *)
+(*                     | rejected | failed; dropped and cancelled          *)
+(*                     proposals are deleted, as in x/gov                  *)
+(*   st.esc   = id -> [proposer, applied, bond]     (farm EscrowInfo)      *)
+(*   st.cp    = community pool (FeePool.CommunityPool) per reward denom;   *)
+(*              its coins are part of bal[FEEP]                            *)
+(***************************************************************************)
+AllBal(s) == s.bal @@ s.gbal
+SplitBal(s, b) == [s EXCEPT !.bal = [a \in DOMAIN s.bal |-> b[a]],
+                            !.gbal = [a \in DOMAIN s.gbal |-> b[a]]]
+CoinsAdd(a, b) == [d \in DOMAIN a \cup DOMAIN b |-> Amt(a, d) + Amt(b, d)]
+CpAdd(cp, c) == [d \in DOMAIN cp |-> cp[d] + Amt(c, d)]
+CpSub(cp, c) == [d \in DOMAIN cp |-> cp[d] - Amt(c, d)]
+
+Pid(n) == ToString(n)
+PidNum(i) == CHOOSE n \in 1..99 : ToString(n) = i
+MinPid(I) == CHOOSE i \in I : \A j \in I : PidNum(i) <= PidNum(j)
+Live(pr) == pr.status \in {"deposit", "voting"}
+VoteOptions == {"yes", "no", "veto", "abstain"}
+
+(* msg_server.go: CreatePoolWithCommunityPool *)
+DoCreatePoolCP(s, who, lpt, rpb, applied, bond, dep) ==
+  LET total == CoinsAdd(applied, bond) IN
+  \* ValidateBasic: initial deposit, Content.ValidateBasic -> ValidateFund
+  IF dep < 0 THEN Fail(s)
+  ELSE IF applied = EmptyF THEN Fail(s)
+  ELSE IF \E d \in DOMAIN applied : applied[d] <= 0 THEN Fail(s)
+  ELSE IF \E d \in DOMAIN bond : bond[d] <= 0 THEN Fail(s)
+  ELSE IF DOMAIN applied \cap DOMAIN bond # {} THEN Fail(s)
+  ELSE IF ~ValidRules(rpb, total) THEN Fail(s)
+  \* message server
+  ELSE IF Cardinality(DOMAIN total) > s.params.maxCat THEN Fail(s)
+  ELSE IF lpt # LP THEN Fail(s)
+  \* SendCoinsFromAccountToModule(proposer, escrow_collector, bond): the bank
+  \* keeper panics when the module account is not configured
+  ELSE IF ~s.wired THEN Panic(s)
+  ELSE IF ~CanPay(AllBal(s), who, bond) THEN Fail(s)
+  \* escrowFromFeePool
+  ELSE IF \E d \in DOMAIN applied : Amt(s.cp, d) < applied[d] THEN Fail(s)
+  ELSE IF ~CanPay(s.bal, FEEP, applied) THEN Fail(s)
+  \* gov SubmitProposal runs the content once on a discarded branch (the
+  \* escrow just made covers it); AddDeposit: with a deposit ratio set, an
+  \* empty or too small initial deposit is refused
+  ELSE IF dep = 0 \/ dep < s.gov.thr THEN FailW(s, "deposit_small")
+  ELSE IF AllBal(s)[who][FeeDenom] < dep THEN Fail(s)
+  ELSE
+    LET b1 == Move(AllBal(s), who, ESC, bond)
+        b2 == Move(b1, FEEP, ESC, applied)
+        b3 == Move(b2, who, GOVA, (FeeDenom :> dep))
+        id == Pid(s.pseq + 1)
+        voting == dep >= s.gov.minDep
+        prop == [status |-> IF voting THEN "voting" ELSE "deposit",
+                 proposer |-> who, dep |-> (who :> dep),
+                 due |-> s.h + (IF voting THEN s.gov.vp ELSE s.gov.dp),
+                 vote |-> "none", lpt |-> lpt, rpb |-> rpb,
+                 applied |-> applied, bond |-> bond]
+        s1 == SplitBal(s, b3)
+    IN Done([s1 EXCEPT !.cp = CpSub(s.cp, applied),
+                       !.pseq = s.pseq + 1,
+                       !.props = Put(s.props, id, prop),
+                       !.esc = Put(s.esc, id, [proposer |-> who, applied |-> applied,
+                                               bond |-> bond])],
+            EmptyF)
+
+(* x/gov MsgDeposit -> AddDeposit *)
+DoDeposit(s, who, i, amt) ==
+  IF amt <= 0 THEN Fail(s)
+  ELSE IF i \notin DOMAIN s.props THEN Fail(s)
+  ELSE IF ~Live(s.props[i]) THEN Fail(s)
+  ELSE IF amt < s.gov.thr THEN FailW(s, "deposit_small")
+  ELSE IF AllBal(s)[who][FeeDenom] < amt THEN Fail(s)
+  ELSE
+    LET pr == s.props[i]
+        dep2 == Put(pr.dep, who, Amt(pr.dep, who) + amt)
+        tot == SumF(dep2)
+        act == pr.status = "deposit" /\ tot >= s.gov.minDep
+        pr2 == [pr EXCEPT !.dep = dep2,
+                          !.status = IF act THEN "voting" ELSE @,
+                          !.due = IF act THEN s.h + s.gov.vp ELSE @]
+        s1 == SplitBal(s, Move(AllBal(s), who, GOVA, (FeeDenom :> amt)))
+    IN Done([s1 EXCEPT !.props[i] = pr2], EmptyF)
+
+(* x/gov MsgVote -> AddVote: a later vote of the same voter replaces the earlier *)
+DoVote(s, who, i, opt) ==
+  IF opt \notin VoteOptions THEN Fail(s)
+  ELSE IF i \notin DOMAIN s.props THEN Fail(s)
+  ELSE IF s.props[i].status # "voting" THEN Fail(s)
+  ELSE IF who # VAL THEN Done(s, EmptyF)       \* a vote without voting power
+  ELSE Done([s EXCEPT !.props[i].vote = opt], EmptyF)
+
+(* x/gov MsgCancelProposal -> CancelProposal: the cancellation charge of every
+   deposit is burned, the rest returned, votes and proposal deleted.  No gov
+   hook is called: the farm module never hears of it and the escrow record and
+   its coins stay where they are. *)
+RECURSIVE ChargeDeposits(_, _, _)
+ChargeDeposits(s, dep, A) ==
+  IF A = {} THEN s
+  ELSE LET a == CHOOSE x \in A : TRUE
+           burn == (dep[a] * s.gov.cnum) \div s.gov.cden
+           b1 == Move(AllBal(s), GOVA, a, Pos((FeeDenom :> dep[a] - burn)))
+           b2 == Debit(b1, GOVA, (FeeDenom :> burn))
+           s1 == [SplitBal(s, b2) EXCEPT !.supply = SubSupply(s.supply, (FeeDenom :> burn))]
+       IN ChargeDeposits(s1, dep, A \ {a})
+
+DoCancel(s, who, i) ==
+  IF i \notin DOMAIN s.props THEN Fail(s)
+  ELSE IF s.props[i].proposer # who THEN Fail(s)
+  ELSE IF ~Live(s.props[i]) THEN Fail(s)
+  ELSE LET s1 == ChargeDeposits(s, s.props[i].dep, DOMAIN s.props[i].dep)
+       IN Done([s1 EXCEPT !.props = Del(s.props, i)], EmptyF)
+
+(* proposal.go: refundEscrow, called from the gov hooks on a branch that is
+   written whatever happens (the hooks return nothing): a failure half way
+   leaves the first transfer in place *)
+RefundEscrow(s, i) ==
+  LET info == s.esc[i]
+      b0 == AllBal(s) IN
+  IF ~CanPay(b0, ESC, info.bond) THEN s
+  ELSE
+    LET b1 == Move(b0, ESC, info.proposer, info.bond) IN
+    IF ~CanPay(b1, ESC, info.applied) THEN SplitBal(s, b1)
+    ELSE [SplitBal(s, Move(b1, ESC, FEEP, info.applied))
+            EXCEPT !.cp = CpAdd(s.cp, info.applied), !.esc = Del(s.esc, i)]
+
+RECURSIVE ReturnDeposits(_, _, _, _)
+ReturnDeposits(s, dep, A, burn) ==
+  IF A = {} THEN s
+  ELSE LET a == CHOOSE x \in A : TRUE
+           c == Pos((FeeDenom :> dep[a]))
+           s1 == IF burn
+                 THEN [SplitBal(s, Debit(AllBal(s), GOVA, c))
+                         EXCEPT !.supply = SubSupply(s.supply, c)]
+                 ELSE SplitBal(s, Move(AllBal(s), GOVA, a, c))
+       IN ReturnDeposits(s1, dep, A \ {a}, burn)
+
+(* gov EndBlocker, first loop: proposals whose deposit period ended *)
+GovDropOne(s, i) ==
+  LET pr == s.props[i]
+      s1 == [s EXCEPT !.props = Del(s.props, i)]
+      s2 == ReturnDeposits(s1, pr.dep, DOMAIN pr.dep, s.gov.burnPre)
+  IN IF i \in DOMAIN s2.esc THEN RefundEscrow(s2, i) ELSE s2   \* AfterProposalFailedMinDeposit
+
+(* proposal.go: HandleCreateFarmProposal, run by gov for a passed proposal on a
+   branch that is discarded when it fails.  Returns [ok, st]. *)
+HandleCreateFarm(s, pr) ==
+  LET total == CoinsAdd(pr.applied, pr.bond) IN
+  IF ~s.wired THEN [ok |-> FALSE, st |-> s]
+  ELSE IF ~CanPay(AllBal(s), ESC, total) THEN [ok |-> FALSE, st |-> s]
+  ELSE
+    LET s1 == SplitBal(s, Move(AllBal(s), ESC, FARM, total))
+        id == PoolId(s.seq + 1)
+        rules == [d \in DOMAIN total |->
+                    [totalR |-> total[d], remaining |-> total[d],
+                     rpb |-> Amt(pr.rpb, d), rps |-> 0]]
+        end == ExpiredHeightOf(s.h, rules)
+        pool == [creator |-> FEEP, start |-> s.h, end |-> end, lastH |-> 0,
+                 total |-> 0, editable |-> FALSE, rules |-> rules]
+    IN [ok |-> TRUE,
+        st |-> [s1 EXCEPT !.seq = s.seq + 1,
+                          !.pools = Put(s1.pools, id, pool),
+                          !.fi = Put(s1.fi, id, EmptyF),
+                          !.queue = s1.queue \cup {<<end, id>>}]]
+
+(* gov EndBlocker, second loop: proposals whose voting period ended.  Tally
+   with a single voter: passes iff the vote is yes; the deposits are burned on
+   a veto (burnV) or when nobody voted (burnQ), returned otherwise. *)
+GovTallyOne(s, i) ==
+  LET pr == s.props[i]
+      passes == pr.vote = "yes"
+      burn == (pr.vote = "none" /\ s.gov.burnQ) \/ (pr.vote = "veto" /\ s.gov.burnV)
+      s1 == ReturnDeposits(s, pr.dep, DOMAIN pr.dep, burn)
+      x == IF passes THEN HandleCreateFarm(s1, pr) ELSE [ok |-> FALSE, st |-> s1]
+      status == IF passes THEN (IF x.ok THEN "passed" ELSE "failed") ELSE "rejected"
+      \* deposits and votes leave the gov store with the tally
+      s2 == [x.st EXCEPT !.props[i].status = status, !.props[i].dep = EmptyF,
+                         !.props[i].vote = "none"]
+  IN \* AfterProposalVotingPeriodEnded
+     IF i \notin DOMAIN s2.esc THEN s2
+     ELSE IF status = "passed" THEN [s2 EXCEPT !.esc = Del(s2.esc, i)]
+     ELSE RefundEscrow(s2, i)
+
+RECURSIVE GovFold(_, _, _)
+GovFold(s, I, tally) ==
+  IF I = {} THEN s
+  ELSE LET i == MinPid(I) IN
+       GovFold(IF tally THEN GovTallyOne(s, i) ELSE GovDropOne(s, i), I \ {i}, tally)
+
+GovEndBlock(s) ==
+  LET s1 == GovFold(s, {i \in DOMAIN s.props : s.props[i].status = "deposit" /\ s.props[i].due <= s.h}, FALSE)
+  IN GovFold(s1, {i \in DOMAIN s1.props : s1.props[i].status = "voting" /\ s1.props[i].due <= s1.h}, TRUE)
+
 (* abci.go: EndBlocker — refund every pool queued at this height, errors are
    logged and ignored (partial effects stay); then the height advances. *)
 RECURSIVE RefundAll(_, _)
@@ -328,9 +565,11 @@ RefundAll(s, ps) ==
 
 DueAt(s, h) == {q[2] : q \in {x \in s.queue : x[1] = h}}
 
+(* the application's end-blockers: gov (proposals) runs before farm (pools) *)
 DoEndBlock(s) ==
-  LET due == {p \in DueAt(s, s.h) : p \in DOMAIN s.pools}
-      s1 == RefundAll(s, due)
+  LET s0 == GovEndBlock(s)
+      due == {p \in DueAt(s0, s0.h) : p \in DOMAIN s0.pools}
+      s1 == RefundAll(s0, due)
   IN Done([s1 EXCEPT !.h = s.h + 1], EmptyF)
 
 (* An account outside the module sends coins to the farm module account by a
@@ -342,6 +581,16 @@ DoEndBlock(s) ==
    tally stays in the state for traces of applications that allow such sends. *)
 DoDonate(s, who, d, amt) == FailW(s, "blocked")
 
+(* An as-is genesis round trip between two blocks (genesis.go ExportGenesis ->
+   InitGenesis at the next height): pools, farm infos, sequence, parameters and
+   escrow records are written back as exported, the active-pool queue is
+   rebuilt.  Everything else of the state lives in other modules' genesis
+   (bank, distribution, gov) and comes back as it was. *)
+DoReimport(s) ==
+  Done([s EXCEPT !.queue = {<<s.pools[p].end, p>> :
+                              p \in {q \in DOMAIN s.pools : s.h <= s.pools[q].end}}],
+       EmptyF)
+
 (* Dispatch on an event record: the deterministic step function *)
 Apply(s, e) ==
   CASE e.name = "CreatePool" -> DoCreatePool(s, e.who, e.lpt, e.start, e.rpb, e.total, e.editable)
@@ -352,6 +601,11 @@ Apply(s, e) ==
     [] e.name = "Harvest"     -> DoHarvest(s, e.who, e.pool)
     [] e.name = "EndBlock"    -> DoEndBlock(s)
     [] e.name = "Donate"      -> DoDonate(s, e.who, e.lpt, e.amt)
+    [] e.name = "CreatePoolCP" -> DoCreatePoolCP(s, e.who, e.lpt, e.rpb, e.total, e.bond, e.amt)
+    [] e.name = "Deposit"     -> DoDeposit(s, e.who, e.pool, e.amt)
+    [] e.name = "Vote"        -> DoVote(s, e.who, e.pool, e.lpt)
+    [] e.name = "CancelProposal" -> DoCancel(s, e.who, e.pool)
+    [] e.name = "Reimport"    -> DoReimport(s)
     [] OTHER -> Fail(s)
 
 -----------------------------------------------------------------------------
@@ -402,7 +656,27 @@ EntD == 2520
 
 GhostInit == [funded |-> EmptyF, entD |-> EmptyF, entOK |-> EmptyF, released |-> EmptyF, refunded |-> EmptyF, refunds |-> EmptyF,
               paid |-> EmptyF, touches |-> EmptyF, maxLocked |-> EmptyF,
-              updates |-> EmptyF]
+              updates |-> EmptyF,
+              xesc |-> EmptyF, xpool |-> EmptyF, xback |-> EmptyF, xcancel |-> {}]
+
+(* Governance steps as seen in the observed states.
+   PassedIn:   proposals that were in their voting period before an end-block
+               and are recorded as passed after it;
+   PoolOfPassed: the pool a passed proposal created - gov handles the due
+               proposals in the order of their ids and every created pool
+               takes the next sequence number;
+   EscBackIn:  escrow records that disappeared without the proposal passing,
+               i.e. whose coins the refund hook sent back. *)
+PassedIn(s, e, t) ==
+  IF e.name = "EndBlock"
+  THEN {i \in DOMAIN s.props : s.props[i].status = "voting"
+                               /\ i \in DOMAIN t.props /\ t.props[i].status = "passed"}
+  ELSE {}
+PoolOfPassed(s, P, i) ==
+  PoolId(s.seq + 1 + Cardinality({j \in P : PidNum(j) < PidNum(i)}))
+EscBackIn(s, e, t) ==
+  {i \in DOMAIN s.esc : i \notin DOMAIN t.esc /\ i \notin PassedIn(s, e, t)}
+EscTotal(info, d) == Amt(info.applied, d) + Amt(info.bond, d)
 
 ZeroR(t, p) == [d \in DOMAIN t.pools[p].rules |-> 0]
 
@@ -414,9 +688,14 @@ GhostStep(g, s, e, t) ==
       relStep(p, d) == Drop(s, t, p, d) - refStep(p, d)
   IN
   [funded |-> [p \in ps |-> [d \in DOMAIN t.pools[p].rules |->
-                 \* what the creator actually paid in: the event's coins, when it succeeded
+                 \* what the creator actually paid in: the event's coins, when it succeeded;
+                 \* for a pool born in an end-block, what had been escrowed for the
+                 \* passed proposal it belongs to (the observed escrow record)
                  IF p \notin DOMAIN s.pools
-                 THEN (IF e.name = "CreatePool" /\ e.ok THEN Amt(e.total, d) ELSE 0)
+                 THEN (IF e.name = "CreatePool" /\ e.ok THEN Amt(e.total, d)
+                       ELSE LET P == PassedIn(s, e, t)
+                                mine == {i \in P : PoolOfPassed(s, P, i) = p /\ i \in DOMAIN s.esc}
+                            IN SumOver([i \in mine |-> EscTotal(s.esc[i], d)], mine))
                  ELSE old(g.funded, p, ZeroR(t, p))[d]
                       + (IF e.name = "AdjustPool" /\ e.ok /\ e.pool = p THEN Amt(e.total, d) ELSE 0)]],
    entD |-> [p \in ps |-> [f \in UsersOf(t) |-> [d \in DOMAIN t.pools[p].rules |->
@@ -448,7 +727,22 @@ GhostStep(g, s, e, t) ==
    updates  |-> [p \in ps |->
                    old(g.updates, p, 0)
                    + (IF p \in DOMAIN s.pools /\ t.pools[p].lastH > s.pools[p].lastH
-                         /\ s.pools[p].total > 0 THEN 1 ELSE 0)]]
+                         /\ s.pools[p].total > 0 THEN 1 ELSE 0)],
+   \* proposals: what was escrowed, how often a pool was created from it, how
+   \* often the escrow went back, which were cancelled by their proposer
+   xesc     |-> LET new == DOMAIN t.esc \ DOMAIN s.esc IN
+                [i \in DOMAIN g.xesc \cup new |->
+                   IF i \in DOMAIN g.xesc THEN g.xesc[i]
+                   ELSE [applied |-> t.esc[i].applied, bond |-> t.esc[i].bond,
+                         proposer |-> t.esc[i].proposer]],
+   xpool    |-> LET P == PassedIn(s, e, t) IN
+                [i \in DOMAIN g.xpool \cup (DOMAIN t.esc \ DOMAIN s.esc) |->
+                   old(g.xpool, i, 0)
+                   + (IF i \in P /\ PoolOfPassed(s, P, i) \in DOMAIN t.pools \ DOMAIN s.pools
+                      THEN 1 ELSE 0)],
+   xback    |-> [i \in DOMAIN g.xback \cup (DOMAIN t.esc \ DOMAIN s.esc) |->
+                   old(g.xback, i, 0) + (IF i \in EscBackIn(s, e, t) THEN 1 ELSE 0)],
+   xcancel  |-> g.xcancel \cup (IF e.name = "CancelProposal" /\ e.ok THEN {e.pool} ELSE {})]
 
 -----------------------------------------------------------------------------
 (***************************************************************************)
@@ -608,6 +902,141 @@ C06_ProRata(t, g) ==
          /\ got * EntD > g.entD[p][f][d] - J * EntD - slack
 
 (***************************************************************************)
+(* Diagnostic clauses X05_* / X06_* (specification grown beyond the listed *)
+(* properties: governance-funded pools, AdjustPool corners).  Evaluated in *)
+(* the exhaustive configurations and on every real trace, reported, never  *)
+(* part of a listed property's verdict.                                    *)
+(***************************************************************************)
+GovDenomsOf(t) == DOMAIN t.gbal[ESC]
+ProposersOf(t) == DOMAIN t.gbal \ {ESC, GOVA}
+
+(* the escrow account holds exactly what the escrow records say *)
+X05_EscrowConservation(t) ==
+  \A d \in GovDenomsOf(t) :
+    t.gbal[ESC][d] = SumOver([i \in DOMAIN t.esc |-> EscTotal(t.esc[i], d)], DOMAIN t.esc)
+
+(* the gov module account holds exactly the deposits of the live proposals *)
+X05_DepositsBacked(t) ==
+  /\ t.gbal[GOVA][FeeDenom] =
+       SumOver([i \in DOMAIN t.props |-> SumF(t.props[i].dep)], DOMAIN t.props)
+  /\ \A d \in GovDenomsOf(t) \ {FeeDenom} : t.gbal[GOVA][d] = 0
+
+(* closed balance sheet: both sheets together are the supply *)
+X05_SupplyClosed(t) ==
+  \A d \in DOMAIN t.supply : TotalOf(t.bal, d) + TotalOf(t.gbal, d) = t.supply[d]
+
+(* the community pool is debited by the escrowed amount only, credited by
+   returned escrows and by the end-of-life refund of pools it owns; its coins
+   are in the distribution account (reward denoms move there for no other
+   reason) *)
+X05_CommunityPool(s, e, t) ==
+  LET back == EscBackIn(s, e, t)
+      ref == {p \in RefundedIn(s, e, t) : s.pools[p].creator = FEEP}
+      refAmt(p, d) == IF d \in DOMAIN s.pools[p].rules
+                      THEN Drop(s, t, p, d) - RateDue(s, t, p, d) ELSE 0
+  IN \A d \in DOMAIN t.cp :
+       /\ t.cp[d] - s.cp[d] =
+            SumOver([i \in back |-> Amt(s.esc[i].applied, d)], back)
+            + SumOver([p \in ref |-> refAmt(p, d)], ref)
+            - (IF e.name = "CreatePoolCP" /\ e.ok THEN Amt(e.total, d) ELSE 0)
+       /\ t.bal[FEEP][d] - s.bal[FEEP][d] = t.cp[d] - s.cp[d]
+       /\ t.cp[d] >= 0 /\ t.cp[d] <= t.bal[FEEP][d]
+
+(* a proposer pays the self bond and gets exactly it back; nothing else moves
+   a proposer's reward coins *)
+X05_ProposerFrame(s, e, t) ==
+  LET back == EscBackIn(s, e, t) IN
+  \A a \in ProposersOf(t) : \A d \in GovDenomsOf(t) \ {FeeDenom} :
+    LET mine == {i \in back : s.esc[i].proposer = a} IN
+    t.gbal[a][d] - s.gbal[a][d] =
+      SumOver([i \in mine |-> Amt(s.esc[i].bond, d)], mine)
+      - (IF e.name = "CreatePoolCP" /\ e.ok /\ e.who = a THEN Amt(e.bond, d) ELSE 0)
+
+(* an accepted MsgCreatePoolWithCommunityPool leaves a proposal, its escrow
+   record and the coins in the escrow account *)
+X06_ProposalRecorded(s, e, t) ==
+  (e.name = "CreatePoolCP" /\ e.ok) =>
+    LET new == DOMAIN t.esc \ DOMAIN s.esc IN
+    /\ Cardinality(new) = 1
+    /\ \A i \in new :
+         /\ i \in DOMAIN t.props /\ i \notin DOMAIN s.props /\ Live(t.props[i])
+         /\ t.esc[i] = [proposer |-> e.who, applied |-> e.total, bond |-> e.bond]
+         /\ t.props[i].proposer = e.who /\ t.props[i].rpb = e.rpb
+         /\ \A d \in GovDenomsOf(t) \ {FeeDenom} :
+              t.gbal[ESC][d] - s.gbal[ESC][d] = Amt(e.total, d) + Amt(e.bond, d)
+
+(* a passed proposal creates exactly its pool: owned by the community pool,
+   starting now, not editable, budget = what was escrowed, at the proposed
+   rates; and an end-block creates no other pools *)
+X06_GovPool(s, e, t) ==
+  LET P == PassedIn(s, e, t) IN
+  /\ DOMAIN t.pools \ DOMAIN s.pools =
+       (IF e.name = "CreatePool" /\ e.ok THEN {PoolId(s.seq + 1)} ELSE {})
+       \cup {PoolOfPassed(s, P, i) : i \in P}
+  /\ \A i \in P :
+       LET p == PoolOfPassed(s, P, i) IN
+       /\ i \in DOMAIN s.esc
+       /\ p \in DOMAIN t.pools
+       /\ t.pools[p].creator = FEEP /\ t.pools[p].start = s.h /\ ~t.pools[p].editable
+       /\ DOMAIN t.pools[p].rules =
+            DOMAIN s.esc[i].applied \cup DOMAIN s.esc[i].bond
+       /\ \A d \in DOMAIN t.pools[p].rules :
+            /\ t.pools[p].rules[d].totalR = EscTotal(s.esc[i], d)
+            /\ t.pools[p].rules[d].rpb = Amt(s.props[i].rpb, d)
+
+(* the vote decides: a proposal passes only on a yes of the voting power, and
+   a yes is followed by the pool (or by a failed execution, never by a plain
+   rejection) *)
+X06_VoteDecides(s, e, t) ==
+  (e.name = "EndBlock") =>
+    \A i \in DOMAIN s.props :
+      (s.props[i].status = "voting" /\ s.props[i].due <= s.h) =>
+        /\ i \in DOMAIN t.props /\ ~Live(t.props[i])
+        /\ (t.props[i].status = "passed") => s.props[i].vote = "yes"
+        /\ (s.props[i].vote = "yes") => t.props[i].status \in {"passed", "failed"}
+
+(* exactly one outcome per proposal: while it is pending the escrow is held;
+   once it is over, either the pool was created or the escrow went back -
+   one of them, once - and the record is gone *)
+OneOutcomeOf(t, g, i) ==
+  LET live == i \in DOMAIN t.props /\ Live(t.props[i]) IN
+  /\ live => (g.xpool[i] = 0 /\ g.xback[i] = 0 /\ i \in DOMAIN t.esc)
+  /\ (~live) => (g.xpool[i] + g.xback[i] = 1 /\ i \notin DOMAIN t.esc)
+X06_OneOutcome(t, g) == \A i \in DOMAIN g.xesc : OneOutcomeOf(t, g, i)
+(* step form for traces: judged at the step in which a proposal appears or stops
+   being pending (one report per proposal instead of one per later state) *)
+X06_OneOutcomeStep(s, e, t, g) ==
+  \A i \in DOMAIN g.xesc :
+    LET was == i \in DOMAIN s.props /\ Live(s.props[i])
+        is == i \in DOMAIN t.props /\ Live(t.props[i])
+    IN (was # is \/ (i \in DOMAIN t.esc) # (i \in DOMAIN s.esc)) => OneOutcomeOf(t, g, i)
+(* the same, leaving out proposals cancelled by their proposer (finding FG2:
+   x/gov's CancelProposal calls no hook, the escrow is never returned) *)
+X06_OneOutcome_ModCancel(t, g) ==
+  \A i \in DOMAIN g.xesc \ g.xcancel : OneOutcomeOf(t, g, i)
+
+(* an as-is export / import between two blocks changes nothing the model sees:
+   pools, stakes, the rebuilt queue, escrow records, proposals, every balance *)
+X12_Farm_RoundTrip(s, e, t) == (e.name = "Reimport") => (e.ok /\ t = s)
+
+(* no message of the module panics *)
+X06_CPNoPanic(e) == (e.name = "CreatePoolCP") => ~e.panic
+X06_AdjustNoPanic(e) == (e.name = "AdjustPool") => ~e.panic
+
+(* AdjustPool is for the creator of an editable, running pool only, and it
+   never leaves the pool with an end height the budget cannot cover *)
+X06_AdjustGuard(s, e, t) ==
+  (e.name = "AdjustPool" /\ e.ok) =>
+    /\ e.pool \in DOMAIN s.pools
+    /\ s.pools[e.pool].creator = e.who /\ s.pools[e.pool].editable
+    /\ ~Expired(s, e.pool)
+    /\ t.pools[e.pool].end >= s.h
+    /\ \A d \in DOMAIN t.pools[e.pool].rules :
+         LET r == t.pools[e.pool].rules[d]
+             from == IF t.pools[e.pool].start > s.h THEN t.pools[e.pool].start ELSE s.h
+         IN r.rpb * (t.pools[e.pool].end - from) <= r.remaining
+
+(***************************************************************************)
 (* Genesis (C12 at design level): genesis.go ExportGenesis / InitGenesis and *)
 (* types/genesis.go ValidateGenesis, as operators on the state.            *)
 (* Export writes pools (with rules), farm infos, sequence, params — not    *)
@@ -616,7 +1045,8 @@ C06_ProRata(t, g) ==
 (* (for an as-is export taken after block h-1 the import context has       *)
 (* height h, the next block to run).                                       *)
 (***************************************************************************)
-ExportG(s) == [pools |-> s.pools, fi |-> s.fi, seq |-> s.seq, params |-> s.params]
+ExportG(s) == [pools |-> s.pools, fi |-> s.fi, seq |-> s.seq, params |-> s.params,
+               esc |-> s.esc]
 
 SeqOf(p) == CHOOSE n \in 1..99 : PoolId(n) = p
 
@@ -633,7 +1063,15 @@ ValidateG(g) ==
 ImportQueue(g, h) ==
   {<<g.pools[p].end, p>> : p \in {q \in DOMAIN g.pools : h <= g.pools[q].end}}
 
+(* InitGenesis stores the escrow records as they are (no validation) *)
+ImportEsc(g) == g.esc
+
 C12_Farm_Accepted(s) == ValidateG(ExportG(s))
+(* diagnostic: the escrow records of pending proposals survive export/import,
+   so the escrow account (bank genesis) is still accounted for afterwards *)
+X12_Farm_Escrow(s) ==
+  /\ ImportEsc(ExportG(s)) = s.esc
+  /\ X05_EscrowConservation([s EXCEPT !.esc = ImportEsc(ExportG(s))])
 (* the rebuilt queue is the queue: every pool that still awaits its end-block
    refund is enqueued again *)
 C12_Farm_Queue(s) == ImportQueue(ExportG(s), s.h) = s.queue
@@ -656,7 +1094,16 @@ C13_OnceOnTime(s, e, t, g) ==
 -----------------------------------------------------------------------------
 (* Model-checking universe *)
 CONSTANTS MaxH, MaxStake, MaxPools, Prec, InitLP, InitR, Fee, TaxNum, TaxDen,
-          RewardTotals, RewardRates, MaxStart, TopUps, Donations, Creators
+          RewardTotals, RewardRates, MaxStart, TopUps, Donations, Creators,
+          \* governance-funded pools
+          GovOn,        \* BOOLEAN: the application wires escrow account, route and hooks
+          InitCP,       \* community pool at the start, per reward denom
+          MaxProps,     \* proposals per behaviour
+          CPTotals,     \* amounts applied for / bonded, per denom
+          Deposits,     \* deposit amounts
+          GovMinDep, GovThr, GovDP, GovVP,   \* min deposit, smallest deposit, periods in blocks
+          CancelNum, CancelDen,              \* cancellation charge
+          BurnPre, BurnQ, BurnV              \* x/gov burn switches
 
 Coins1(S, V) == UNION {[D -> V] : D \in (SUBSET S) \ {{}}}
 
@@ -665,23 +1112,39 @@ Init0 ==
    params |-> [fee |-> Fee, taxNum |-> TaxNum, taxDen |-> TaxDen, maxCat |-> 2],
    pools |-> EmptyF, fi |-> EmptyF, queue |-> {},
    bal |-> [a \in Accts |-> [d \in Denoms |->
-              IF a \in Users THEN (IF d = LP THEN InitLP ELSE InitR) ELSE 0]],
-   supply |-> [d \in Denoms |-> Cardinality(Users) * (IF d = LP THEN InitLP ELSE InitR)],
-   donated |-> EmptyF]
+              IF a \in Users THEN (IF d = LP THEN InitLP ELSE InitR)
+              ELSE IF a = FEEP /\ d \in RDenoms THEN InitCP ELSE 0]],
+   supply |-> [d \in Denoms |->
+                 Cardinality(Users) * (IF d = LP THEN InitLP ELSE InitR)
+                 + (IF d = LP THEN 0 ELSE Cardinality(Proposers) * InitR)
+                 + (IF d \in RDenoms THEN InitCP ELSE 0)],
+   donated |-> EmptyF,
+   wired |-> GovOn,
+   gbal |-> [a \in GAccts |-> [d \in Denoms |->
+               IF a \in Proposers /\ d # LP THEN InitR ELSE 0]],
+   cp |-> [d \in RDenoms |-> InitCP],
+   gov |-> [minDep |-> GovMinDep, thr |-> GovThr, dp |-> GovDP, vp |-> GovVP,
+            cnum |-> CancelNum, cden |-> CancelDen,
+            burnPre |-> BurnPre, burnQ |-> BurnQ, burnV |-> BurnV],
+   pseq |-> 0, props |-> EmptyF, esc |-> EmptyF]
 
 Init == st = Init0 /\ ev = NoEv /\ gh = GhostInit /\ hist = <<>>
 
 E(name, who, pool, amt, lpt, total, rpb, start, editable) ==
   [name |-> name, who |-> who, pool |-> pool, amt |-> amt, lpt |-> lpt,
    total |-> total, rpb |-> rpb, start |-> start, editable |-> editable,
-   ok |-> TRUE, panic |-> FALSE, halt |-> FALSE, reward |-> EmptyF]
+   ok |-> TRUE, panic |-> FALSE, halt |-> FALSE, reward |-> EmptyF, bond |-> EmptyF]
 
+(* LiveMode (overridden to TRUE by the liveness configurations): the last event
+   and the ghosts are frozen, so that the state graph is the graph of st *)
+LiveMode == FALSE
+LiveOn == TRUE
 Step(e) ==
   LET r == Apply(st, e)
       e2 == [e EXCEPT !.ok = r.ok, !.panic = r.panic, !.reward = r.reward]
   IN /\ st' = r.st
-     /\ ev' = e2
-     /\ gh' = GhostStep(gh, st, e2, r.st)
+     /\ ev' = IF LiveMode THEN ev ELSE e2
+     /\ gh' = IF LiveMode THEN gh ELSE GhostStep(gh, st, e2, r.st)
      /\ hist' = IF RecordHist THEN Append(hist, e2) ELSE hist
 
 PoolIds == {PoolId(n) : n \in 1..MaxPools}
@@ -715,10 +1178,55 @@ EndBlock ==
   /\ st.h < MaxH
   /\ Step(E("EndBlock", "", "", 0, "", EmptyF, EmptyF, 0, FALSE))
 
+(* governance-funded pools: the applied amount in some reward denoms, the self
+   bond in others *)
+CreatePoolCP ==
+  /\ st.pseq < MaxProps
+  /\ \E who \in Proposers, applied \in Coins1(RDenoms, CPTotals), dep \in Deposits :
+       \E bond \in Coins1(RDenoms \ DOMAIN applied, CPTotals) \cup {EmptyF} :
+         \E rpb \in [DOMAIN applied \cup DOMAIN bond -> RewardRates] :
+           Step([E("CreatePoolCP", who, "", dep, LP, applied, rpb, 0, FALSE) EXCEPT !.bond = bond])
+Deposit ==
+  \E who \in Proposers, i \in DOMAIN st.props, a \in Deposits \ {0} :
+    Step(E("Deposit", who, i, a, "", EmptyF, EmptyF, 0, FALSE))
+Vote ==
+  \E i \in DOMAIN st.props, o \in VoteOptions :
+    Step(E("Vote", VAL, i, 0, o, EmptyF, EmptyF, 0, FALSE))
+CancelProposal ==
+  \E who \in Proposers, i \in DOMAIN st.props :
+    Step(E("CancelProposal", who, i, 0, "", EmptyF, EmptyF, 0, FALSE))
+Reimport == GovOn /\ Step(E("Reimport", "", "", 0, "", EmptyF, EmptyF, 0, FALSE))
+GovNext == CreatePoolCP \/ Deposit \/ Vote \/ CancelProposal \/ Reimport
+
 Next == CreatePool \/ DestroyPool \/ AdjustPool \/ Stake \/ Unstake \/ Harvest
-        \/ Donate \/ EndBlock
+        \/ Donate \/ EndBlock \/ GovNext
 
 Spec == Init /\ [][Next]_vars
+
+(* Exploratory liveness (in no tier; MC_Farm_live.cfg, MC_FarmGov_live.cfg).
+   Under weak fairness of EndBlock every pool - its budget is finite, top-ups
+   are paid from finite balances - eventually reaches its end and is refunded:
+   dequeued, nothing remaining.  The model's heights stop at MaxH; only a pool
+   whose end lies at or beyond that bound is excused (the bound being reached
+   is by itself no excuse, fairness always gets there).
+   For proposals: every escrow record eventually goes (pool created or escrow
+   returned) unless its proposal was cancelled (FG2: then it stays for ever;
+   Live_EscrowResolved_Strict shows that). *)
+LiveSpec == Init /\ [][Next]_vars /\ WF_vars(EndBlock)
+PoolDone(p) ==
+  /\ p \in DOMAIN st.pools /\ <<st.pools[p].end, p>> \notin st.queue
+  /\ \A d \in DOMAIN st.pools[p].rules : st.pools[p].rules[d].remaining = 0
+PoolBeyond(p) == p \in DOMAIN st.pools /\ st.h >= MaxH /\ st.pools[p].end >= MaxH
+Live_PoolEnds ==
+  \A p \in {PoolId(n) : n \in 1..(MaxPools + MaxProps)} :
+    [](p \in DOMAIN st.pools => <>(PoolDone(p) \/ PoolBeyond(p)))
+PropIds == {Pid(n) : n \in 1..MaxProps}
+PropBeyond(i) == i \in DOMAIN st.props /\ st.h >= MaxH /\ st.props[i].due >= MaxH
+Live_EscrowResolved ==
+  \A i \in PropIds :
+    [](i \in DOMAIN st.esc => <>(i \notin DOMAIN st.esc \/ i \notin DOMAIN st.props \/ PropBeyond(i)))
+Live_EscrowResolved_Strict ==
+  \A i \in PropIds : [](i \in DOMAIN st.esc => <>(i \notin DOMAIN st.esc \/ PropBeyond(i)))
 
 (* Generator: TLC as a source of behaviours to replay on the real code.  Most
    steps succeed (rejections are kept rare so that histories get somewhere);
@@ -726,6 +1234,14 @@ Spec == Init /\ [][Next]_vars
 Rejects(h) == Cardinality({i \in DOMAIN h : ~h[i].ok})
 GenNext == Next /\ (ev'.ok \/ Rejects(hist) < 2)
 GenSpec == Init /\ [][GenNext]_vars
+(* generator for the proposal life cycle: blocks must keep coming (a proposal
+   needs several of them), so at most GenBurst messages go into one block *)
+GenBurst == 2
+SinceEnd(h) ==
+  LET idx == {i \in DOMAIN h : h[i].name = "EndBlock"} IN
+  Len(h) - (IF idx = {} THEN 0 ELSE SetMax(idx))
+GenNextB == GenNext /\ (ev'.name # "EndBlock" => SinceEnd(hist) < GenBurst)
+GenSpecB == Init /\ [][GenNextB]_vars
 GenDepth == atoi(IOEnv.GEN_DEPTH)
 GenConstraint ==
   /\ Len(hist) <= GenDepth
@@ -742,6 +1258,23 @@ Inv_C06_ProRata == C06_ProRata(st, gh)
 Inv_C12_Farm_Accepted == C12_Farm_Accepted(st)
 (* exports happen at block boundaries: checked on the state after EndBlock *)
 Act_C12_Farm_Queue == [][ev'.name = "EndBlock" => C12_Farm_Queue(st')]_vars
+Inv_X05_EscrowConservation == X05_EscrowConservation(st)
+Inv_X05_DepositsBacked == X05_DepositsBacked(st)
+Inv_X05_SupplyClosed == X05_SupplyClosed(st)
+Inv_X12_Farm_Escrow == X12_Farm_Escrow(st)
+Inv_X06_OneOutcome == X06_OneOutcome(st, gh)
+Inv_X06_OneOutcome_ModCancel == X06_OneOutcome_ModCancel(st, gh)
+Act_Gh_X06_OneOutcome == [][X06_OneOutcome(st', gh')]_vars
+Act_Gh_X06_OneOutcome_ModCancel == [][X06_OneOutcome_ModCancel(st', gh')]_vars
+Act_X05_CommunityPool == [][X05_CommunityPool(st, ev', st')]_vars
+Act_X05_ProposerFrame == [][X05_ProposerFrame(st, ev', st')]_vars
+Act_X06_ProposalRecorded == [][X06_ProposalRecorded(st, ev', st')]_vars
+Act_X06_GovPool == [][X06_GovPool(st, ev', st')]_vars
+Act_X06_VoteDecides == [][X06_VoteDecides(st, ev', st')]_vars
+Act_X12_Farm_RoundTrip == [][X12_Farm_RoundTrip(st, ev', st')]_vars
+Act_X06_CPNoPanic == [][X06_CPNoPanic(ev')]_vars
+Act_X06_AdjustNoPanic == [][X06_AdjustNoPanic(ev')]_vars
+Act_X06_AdjustGuard == [][X06_AdjustGuard(st, ev', st')]_vars
 Inv_C13_QueueSound == C13_QueueSound(st)
 Inv_C13_QueueComplete == C13_QueueComplete(st, gh)
 Inv_C13_NoHalt == C13_NoHalt(ev)
